@@ -57,6 +57,12 @@ BLIND = {  # did the owning check exist, unchanged, before the change was seen?
     'b10-C13': 'yes - MISSED (lattice did not vary the activation granularity / dtype); lattice extended to 24 288 rows',
     'b10-C15': 'yes - missed by C15 (C01.R1 and C19.R7 reported); C15.R9 shares the name-uniqueness rule',
     'b10-C16': 'yes - MISSED; then C14.R7 (no mutable class-body object mutated through instances) and the ownership clause of C16.R4',
+    'b11-C01': 'yes - MISSED; then C01.R17: new tensors are named <existing tensor>.name + <suffix unique among creation sites>',
+    'b11-C04': 'yes - caught (C04.R4b / C17.R8 bias scale = input scale x weight scale)',
+    'b11-C09': 'yes - only a budget ANALYSIS-ERROR at first (isinstance(NdArr, np.ndarray) was undecided and forked); the array model now tracks an element kind: C09.R2 and the numeric simulation C09.R11 (integer-typed runtime path) report it',
+    'b11-C10': 'yes - caught (C10.R7 loaded-statistics variant, C09.R10)',
+    'b11-C11': 'yes - caught (C11.R5 add table: scope order)',
+    'b11-C17': 'yes - caught (C17.R2 / C17.R12 parameter laws for all-negative ranges; C04.R7)',
     'b3-C18': 'yes (written minutes before) - MISSED, then fixed', 'b3-C19': 'yes - caught by C10.R2 only, C19.R8 added', 'b3-C01': 'yes - MISSED (declared blind spot), then fixed',
 }
 
